@@ -549,6 +549,13 @@ fn catalogue(field: usize, rng: &mut Rng, shredder: bool) -> Vec<String> {
     for w in ["é", "ß", "Ω", "\u{a0}", "٣", "\u{2003}", "１", "\u{1F600}", "éé", "-é", "é-", "wé", "é1"] {
         out.push(w.to_string());
     }
+    if field == 0 {
+        // empty-square runs whose sum is 8 modulo 2^8 (a narrow file counter would wrap to a full rank)
+        for x in ["8".repeat(33), format!("{}48", "9".repeat(28)), format!("p{}", "8".repeat(32)), format!("{}7p", "8".repeat(32))] {
+            out.push(format!("rnbqkbnr/pppppppp/{}/8/8/8/PPPPPPPP/RNBQKBNR", x));
+            out.push(format!("{}/8/8/8/8/8/8/K6k", x));
+        }
+    }
     if field == 3 {
         for _ in 0..3 {
             out.push(format!("{}{}", FCH[rng.below(8) as usize], 1 + rng.below(8)));
